@@ -42,7 +42,8 @@ class ReproCheck:
 
     def world(self, seed, idx):
         # cycle through the sources of randomness so that each is used by several worlds
-        src = ["deadline_variance", "poisson", "gamma", "conditional", "runtime_variance", "mixed"][idx % 6]
+        # (the even residues of idx % 8 are the greedy worlds: number them consecutively so that every source gets its share)
+        src = ["deadline_variance", "poisson", "gamma", "conditional", "runtime_variance", "mixed"][((idx // 8) * 4 + (idx % 8) // 2) % 6]
         over = {"flags": {"scheduler_frequency": -1}, "max_pools": 2}
         if src == "deadline_variance":
             over.update(release_policies=["fixed"], deadline_variances=[(10, 100), (50, 200)], allow_cond=False,
@@ -58,6 +59,21 @@ class ReproCheck:
             over.update(variances=[20, 50], release_policies=["fixed"])
         prof = "clockwork" if idx % 4 == 3 else "greedy"
         cover = {}
+        if idx % 8 == 5:
+            # a planner that forms candidate batches / reward sets from SETS of tasks: a burst of requests of one or two
+            # models with equal deadlines on a worker that cannot run them all at once
+            sched = ["ILP", "ILP", "TetriSched_CPLEX"][(idx // 8) % 3]
+            fl = {"scheduler": sched, "scheduler_enable_batching": True, "enforce_deadlines": True, "ilp_goal": "max_goodput",
+                  "scheduler_lookahead": 0, "drop_skipped_tasks": False}
+            if sched != "ILP":
+                fl.update(scheduler_time_discretization=1, scheduler_plan_ahead=12)
+            w = worldgen.gen_world(seed, idx, "clockwork", small_burst=True, flags=fl)
+            w["meta"]["source"] = "batching_planner"
+            return w
+        if idx % 8 == 1:
+            w = worldgen.gen_world(seed, idx, "planner", flags={"scheduler_frequency": -1}, allow_cond=False, variances=[0])
+            w["meta"]["source"] = "planner"
+            return w
         if prof == "clockwork":
             # half of the model-serving worlds: several models whose requests arrive together with equal deadlines (ties
             # between models), under both goals
@@ -73,6 +89,7 @@ class ReproCheck:
             world = self.world(spec["seed"], idx)
             rows = []
             errs = []
+            tool_limit = False
             din = os.path.join(workdir, f"w{idx}_in")
             argv0, paths0 = worldgen.write_world(world, din)
             for run, hs in enumerate(("1", "2")):
@@ -88,13 +105,16 @@ class ReproCheck:
                                        cwd=d, env=env, stdout=subprocess.DEVNULL, stderr=subprocess.PIPE,
                                        timeout=300, text=True)
                     if r.returncode != 0:
-                        errs.append(f"run {run}: exit {r.returncode}: {r.stderr[-300:]}")
+                        if "size-limited license" in r.stderr or "Community Edition" in r.stderr or "CPLEX Error  1016" in r.stderr:
+                            tool_limit = True  # the solver licence rejects the model: tooling, not a verdict
+                        else:
+                            errs.append(f"run {run}: exit {r.returncode}: {r.stderr[-300:]}")
                         continue
                     rows.append(normalise(paths["csv"]))
                 except subprocess.TimeoutExpired:
                     errs.append(f"run {run}: timeout")
             res = {"index": idx, "hash": world["hash"], "source": world["meta"]["source"],
-                   "scheduler": world["flags"]["scheduler"], "errors": errs, "viol": [],
+                   "scheduler": world["flags"]["scheduler"], "errors": errs, "viol": [], "tool_limit": tool_limit,
                    "ntypes": len({r["name"].split(":")[0] for p in world["cluster"] for w in p["workers"] for r in w["resources"]})}
             if len(rows) == 2:
                 a, b = rows
@@ -129,7 +149,8 @@ class ReproCheck:
         inconclusive = []
         if len(compared) < (12 if tier == "quick" else 300):
             inconclusive.append(f"only {len(compared)} process pairs compared; errors: {errors[:2]}")
-        for s in ("deadline_variance", "poisson", "gamma", "conditional", "runtime_variance", "clockwork", "clockwork_tied"):
+        for s in ("deadline_variance", "poisson", "gamma", "conditional", "runtime_variance", "clockwork", "clockwork_tied",
+                  "batching_planner", "planner"):
             if per_source.get(s, 0) < 3:
                 inconclusive.append(f"randomness source {s} in {per_source.get(s, 0)} pairs")
         if errors:
@@ -141,7 +162,8 @@ class ReproCheck:
                "samples": [w["sample"] for w in compared if "sample" in w][:4],
                "pairs_per_randomness_source": per_source,
                "pairs_with_two_or_more_resource_types": sum(1 for w in compared if w["ntypes"] >= 2),
-               "rows_compared": sum(w["rows"] for w in compared), "process_errors": len(errors)}
+               "rows_compared": sum(w["rows"] for w in compared), "process_errors": len(errors),
+               "worlds_rejected_by_solver_licence": sum(1 for w in worlds if w.get("tool_limit"))}
         return {"violations": viol, "coverage": cov, "inconclusive": inconclusive,
                 "assumptions": ["one machine: different hash seeds and fresh processes stand in for 'other processes and machines'",
                                 "masked: last column of SCHEDULER_FINISHED (measured wall clock) and input_flag rows of output paths"]}
